@@ -511,7 +511,13 @@ func (s *Session) run() {
 		s.mu.Unlock()
 		if q {
 			// anything after QUIT is a violation; see whether the client sends more
-			_ = s.conn.SetReadDeadline(time.Now().Add(2 * time.Millisecond))
+			wait := 2 * time.Millisecond
+			if s.tlsOn() {
+				// a TLS client says goodbye with a close_notify record: over the unbuffered in-memory pipe that write
+				// fails if this side has hung up already. Wait for the client's end of the stream (it comes at once).
+				wait = 5 * time.Second
+			}
+			_ = s.conn.SetReadDeadline(time.Now().Add(wait))
 			if l, err := s.readLine(); err == nil || l != "" {
 				s.violate("command-after-quit", fmt.Sprintf("%q", l))
 			}
